@@ -168,3 +168,34 @@ Definition obj_eqb (x y : obj) : bool :=
   end.
 
 Definition heap_eqb (x y : heap) : bool := list_eqb obj_eqb x y.
+
+(* ---- the vocabulary of mutating operations (shared by Model and Spec) ----
+   Arguments that are hashed or compared (keys, the operand of remove) are
+   atoms (Z); stored payloads are arbitrary values. *)
+Inductive mop :=
+(* list: the methods of listMethods (library.go) *)
+| LAppend (v : val) | LClear | LExtend (vs : list val) | LInsert (i : Z) (v : val)
+| LPop (i : option Z) | LRemove (a : Z)
+(* list: interpreter opcodes SETINDEX (x[i] = v) and INPLACE_ADD (x += iterable) *)
+| LSetIndex (i : Z) (v : val) | LInplaceAdd (vs : list val)
+(* list: Go API  List.Append / Clear / SetIndex *)
+| GoLAppend (v : val) | GoLClear | GoLSetIndex (i : nat) (v : val)
+(* dict: the methods of dictMethods *)
+| DClear | DPop (k : Z) (d : option val) | DPopitem | DSetdefault (k : Z) (d : val)
+| DUpdate (kvs : list (Z * val))
+(* dict: SETINDEX / SETDICT (d[k] = v), INPLACE_PIPE (d |= dict) *)
+| DSetKey (k : Z) (v : val) | DInplacePipe (kvs : list (Z * val))
+(* dict: Go API Dict.SetKey / Delete / Clear *)
+| GoDSetKey (k : Z) (v : val) | GoDDelete (k : Z) | GoDClear
+(* set: the methods of setMethods *)
+| SAdd (k : Z) | SClear | SDiscard (k : Z) | SPop | SRemove (k : Z) | SUpdate (kss : list (list Z))
+(* set: Go API Set.Insert / Delete / Clear *)
+| GoSInsert (k : Z) | GoSDelete (k : Z) | GoSClear
+(* x.f = v: no value kind of the model implements HasSetField *)
+| XSetField (f : nat) (v : val).
+
+
+Inductive step :=
+| SMut (l : loc) (o : mop)        (* any mutator applied to any object *)
+| SAlloc (o : obj).               (* a new object is created (by running code) *)
+
